@@ -222,7 +222,7 @@ theorem dbSet_inv {sch : Schema} {s : Sess} (hI : Inv sch s) {o : ObjId} (ho : o
   simp only at hne ⊢
   cases hf : (List.range sch.nattrs).find? (fun a => dbEff sch (s.obj o) rowv u a && (s.obj o).rbits a) with
   | some a0 =>
-    simp only [hf]
+    simp only
     refine ⟨inv_congr (sameKeys_setObj s o _ s.queue ⟨rfl, rfl, rfl, fun _ => rfl⟩) hI, (by first | rfl | trivial), (by first | rfl | trivial), by simp [dbObjStop], by simp [dbObjStop]⟩
   | none =>
     simp only [hf] at hne ⊢
@@ -847,7 +847,7 @@ theorem yield_lt {sch : Schema} {s : Sess} (hI : Inv sch s) (op : Op) (x : ObjId
               simp only [Option.some.injEq] at h ⊢
               subst h
               have hn' : s2.n = s1.n := hn
-              show x < s2.n
+              show o < s2.n
               rw [hn']; exact ho
   | setAttrs o ch =>
     simp only [setAttrs] at h
